@@ -22,6 +22,7 @@ type sqlwScenario struct {
 	table     string
 	entry     int
 	hasOpts   bool
+	decoy     bool // a second option struct is passed as well: only the first one counts
 	opts      dataframe.SQLWriteOption
 	exists    bool
 	typeMapKV [][2]string
@@ -83,6 +84,7 @@ func genSqlwScenario(r *Rng, names bool) sqlwScenario {
 	}
 	sc.entry = r.Intn(4)
 	sc.hasOpts = !r.Chance(4)
+	sc.decoy = r.Chance(6)
 	sc.opts.Dialect = Pick(r, []string{"sqlite", "postgres", "mysql", "sqlite3", "postgresql", "pq", "SQLite", "MySQL", "PostgreSQL"})
 	if r.Chance(5) {
 		sc.opts.Dialect = Pick(r, []string{"", "oracle", "mssql"})
@@ -197,22 +199,22 @@ func runSqlwCtx2(sc sqlwScenario, failAt int, cancel, keep bool) (string, []recC
 		switch sc.entry {
 		case 0:
 			if sc.hasOpts {
-				return sc.df.ToSQL(db, sc.table, sc.opts)
+				return sc.df.ToSQL(db, sc.table, sc.optList()...)
 			}
 			return sc.df.ToSQL(db, sc.table)
 		case 1:
 			if sc.hasOpts {
-				return sc.df.ToSQLContext(ctx, db, sc.table, sc.opts)
+				return sc.df.ToSQLContext(ctx, db, sc.table, sc.optList()...)
 			}
 			return sc.df.ToSQLContext(ctx, db, sc.table)
 		case 2:
 			if sc.hasOpts {
-				return sc.df.ToSQLTx(tx, sc.table, sc.opts)
+				return sc.df.ToSQLTx(tx, sc.table, sc.optList()...)
 			}
 			return sc.df.ToSQLTx(tx, sc.table)
 		default:
 			if sc.hasOpts {
-				return sc.df.ToSQLTxContext(ctx, tx, sc.table, sc.opts)
+				return sc.df.ToSQLTxContext(ctx, tx, sc.table, sc.optList()...)
 			}
 			return sc.df.ToSQLTxContext(ctx, tx, sc.table)
 		}
@@ -366,4 +368,12 @@ func isWord(s string) bool {
 		}
 	}
 	return true
+}
+
+// optList: the option structs handed to ToSQL* (the first one is the request; anything after it is ignored)
+func (sc *sqlwScenario) optList() []dataframe.SQLWriteOption {
+	if sc.decoy {
+		return []dataframe.SQLWriteOption{sc.opts, {Dialect: "mysql", IfExists: "replace", BatchSize: 1, TypeMap: map[string]string{"a": "BLOB", "b": "BLOB"}}}
+	}
+	return []dataframe.SQLWriteOption{sc.opts}
 }
